@@ -230,6 +230,41 @@ def run(chk, tier):
             else:
                 chk.ok("R16.7", key_, want_.replace("\\", ""))
     chk.floor("R16.7", "time arithmetic rows", n_time, 6)
+
+    # ---- R16.8 dataflow of the zoned overloads: the accessor chain of the UTC overload, applied to the ADJUSTED instant (never to the raw one)
+    chk.rule("R16.8", "in every zoned overload the accessor chain reads the value returned by get_adjusted_datetime(this, zone) - the chain of the UTC overload with the "
+                      "raw instant replaced by the adjusted one; no calendar field is read from the raw instant")
+    n8 = 0
+    for mod in sorted(ROWS):
+        bs = F.find(r"time_funcs::%s::methods::%s_\w+$" % (mod, mod), "rscel")
+        utc = [b for b in bs if b.local_ty(1).startswith("chrono::DateTime") and b.d["arg_count"] == 1]
+        zoned = [b for b in bs if b.d["arg_count"] == 2]
+        if len(utc) != 1 or len(zoned) != 1:
+            raise lib.MissingAnchor("accessor %s overloads" % mod)
+        keep = lambda e: False
+        ur = [e for e in common.normal_row(F, utc[0], keep)["calls"] if re.search(r"\bp1\)+$", e)]
+        zr = common.normal_row(F, zoned[0], keep)["calls"]
+        # raw reads: a chrono accessor whose innermost argument is the unadjusted parameter
+        raw = [e for e in zr if re.match(r"^(?:Datelike|Timelike|DateTime|Weekday|NaiveTime|NaiveDate)\w*::", e) and re.search(r"\((?:\*?p1|\(\*p1\))\)+$", e)]
+        n8 += 1
+        if raw:
+            chk.bad("R16.8", mod, "the zoned overload of %s reads %s from the raw (UTC) instant, not from the instant adjusted to the zone" % (mod, raw[0]), zoned[0].file)
+            continue
+        missing = []
+        for e in ur:
+            pre = e[:e.rindex("p1")]
+            suf = e[e.rindex("p1") + 2:]
+            hits = [z for z in zr if z.startswith(pre) and z.endswith(suf) and len(z) > len(pre) + len(suf)]
+            leaves = [z[len(pre):len(z) - len(suf)] for z in hits]
+            if not any(l == "_" or "get_adjusted_datetime(p1, p2)" in l for l in leaves):
+                missing.append(e)
+        # the weekday base of the zoned form is a recorded finding of R16.1; the dataflow clause only asks where the chain starts
+        missing = [e for e in missing if not (mod == "get_day_of_week" and "num_days_from_sunday" in e)]
+        if missing:
+            chk.bad("R16.8", mod, "the zoned overload of %s does not apply %s to the adjusted instant" % (mod, missing[0].replace("p1", "<adjusted>")), zoned[0].file)
+        else:
+            chk.ok("R16.8", mod, [e.replace("p1", "<adjusted>") for e in ur])
+    chk.floor("R16.8", "zoned accessors", n8, 10)
     chk.analysed["accessor_overloads"] = n
     return chk.finish(
         "Sibling agreement and frozen accessor rows for the ten calendar accessors (UTC vs zoned overloads, from resolved callees), checked chrono "
